@@ -18,6 +18,8 @@ pub enum Op {
     Ev(KeyCode, KeyState),
     Mode(HandleControl),
     NewLayout,
+    /// a further switch of `Keyboard` that the tree offers (found by build.rs): `extra_kb_op_names()[i]`
+    Extra(usize),
 }
 impl Op {
     pub fn show(&self) -> String {
@@ -25,6 +27,7 @@ impl Op {
             Op::Ev(k, s) => format!("{}({:?})", state_str(*s), k),
             Op::Mode(h) => format!("set_ctrl_handling({})", mode_str(*h)),
             Op::NewLayout => "change_layout(new instance)".into(),
+            Op::Extra(i) => extra_kb_op_names().get(*i).copied().unwrap_or("?").to_string(),
         }
     }
 }
@@ -64,6 +67,9 @@ fn all_event_ops(uni: &[KeyCode]) -> Vec<Op> {
     }
     v.push(Op::Mode(HandleControl::MapLettersToUnicode));
     v.push(Op::Mode(HandleControl::Ignore));
+    for i in 0..extra_kb_op_names().len() {
+        v.push(Op::Extra(i));
+    }
     v
 }
 
@@ -82,13 +88,17 @@ fn kb_apply(kb: &mut Kb, op: &Op) -> Option<DecodedKey> {
             None
         }
         Op::NewLayout => None,
+        Op::Extra(i) => {
+            extra_kb_op!(kb, *i);
+            None
+        }
     }
 }
 fn model_apply(m: &mut ModModel, mode: &mut HandleControl, op: &Op) {
     match op {
         Op::Ev(k, s) => m.step(*k, *s),
         Op::Mode(h) => *mode = *h,
-        Op::NewLayout => {}
+        Op::NewLayout | Op::Extra(_) => {}
     }
 }
 
@@ -141,6 +151,121 @@ fn closure_by(uni: &[KeyCode], cap: usize, ident: &dyn Fn(&Kb) -> String) -> Opt
         }
     }
     Some(states)
+}
+
+
+// =================================================================== novelty-guided exploration (see novelty.rs)
+
+/// C04's oracle riding on a real Keyboard over the first shipped layout.
+struct S04 {
+    kb: Keyboard<DynLayout, ScancodeSet2>,
+    m: ModModel,
+    mode: HandleControl,
+}
+impl crate::novelty::Subject for S04 {
+    type Op = Op;
+    fn fresh() -> Self {
+        S04 { kb: Keyboard::new(ScancodeSet2::new(), dyn_layout(0, 0), INITIAL_MODE), m: ModModel::new(), mode: INITIAL_MODE }
+    }
+    fn apply(&mut self, op: &Op) -> Option<(String, String)> {
+        let (pre, pre_mode) = (self.m.bits, self.mode);
+        match op {
+            Op::Ev(k, s) => {
+                let _ = self.kb.process_keyevent(KeyEvent::new(*k, *s));
+            }
+            Op::Mode(h) => self.kb.set_ctrl_handling(*h),
+            Op::NewLayout => {}
+            Op::Extra(i) => extra_kb_op!(self.kb, *i),
+        }
+        model_apply(&mut self.m, &mut self.mode, op);
+        let post = bits_from_mods(self.kb.get_modifiers());
+        if post != self.m.bits || self.kb.get_ctrl_handling() != self.mode {
+            let want = self.m.bits;
+            let sig = c04_sig(pre, pre_mode, op, want, &mods_str(post));
+            // keep following the real record, so that one defect is reported once and not at every later step
+            self.m.bits = post;
+            self.mode = self.kb.get_ctrl_handling();
+            return Some((sig, format!("event {}: get_modifiers() reports {} – the record of modifier events says {}", op.show(), mods_str(post), mods_str(want))));
+        }
+        None
+    }
+    fn render(&self) -> String {
+        format!("{:?}", self.kb)
+    }
+}
+
+/// C14's oracle riding on a real Keyboard over the first shipped layout: the differential against a direct call.
+struct S14 {
+    kb: Keyboard<DynLayout, ScancodeSet2>,
+    direct: Box<dyn KeyboardLayout>,
+}
+impl crate::novelty::Subject for S14 {
+    type Op = Op;
+    fn fresh() -> Self {
+        S14 { kb: Keyboard::new(ScancodeSet2::new(), dyn_layout(0, 0), INITIAL_MODE), direct: bare_dyn(0) }
+    }
+    fn apply(&mut self, op: &Op) -> Option<(String, String)> {
+        match op {
+            Op::Mode(h) => {
+                self.kb.set_ctrl_handling(*h);
+                None
+            }
+            Op::NewLayout => None,
+            Op::Extra(i) => {
+                extra_kb_op!(self.kb, *i);
+                None
+            }
+            Op::Ev(k, s) => {
+                let pre = self.kb.get_modifiers().clone();
+                let got = self.kb.process_keyevent(KeyEvent::new(*k, *s));
+                let want = if *s != KeyState::Down {
+                    None
+                } else if MOD_KEYS.contains(k) {
+                    Some(DecodedKey::RawKey(if *k == KeyCode::NumpadLock && pre.rctrl2 { KeyCode::PauseBreak } else { *k }))
+                } else {
+                    Some(self.direct.map_keycode(*k, &pre, self.kb.get_ctrl_handling()))
+                };
+                if got != want {
+                    return Some((
+                        format!("C14|explored|state={}|event={}|want={}|got={}", mods_str(bits_from_mods(&pre)), op.show(), odk_str(&want), if want.is_none() { "a-decoded-key".to_string() } else { odk_str(&got) }),
+                        format!("event {} with modifiers {} returned {}; the property requires {}", op.show(), mods_str(bits_from_mods(&pre)), odk_str(&got), odk_str(&want)),
+                    ));
+                }
+                None
+            }
+        }
+    }
+    fn render(&self) -> String {
+        format!("{:?}", self.kb)
+    }
+}
+
+fn run_exploration<S: crate::novelty::Subject<Op = Op>>(rep: &mut Report, uni: &[KeyCode]) {
+    let budget = if rep.thorough() { 400_000 } else { 30_000 };
+    let ex = crate::novelty::explore::<S>(all_event_ops(uni), |o: &Op| o.show(), budget, n_threads());
+    rep.evaluations += ex.children_judged;
+    rep.count("explored_states_seen(novelty_search)", ex.states_seen);
+    rep.count("explored_states_expanded", ex.states_expanded);
+    rep.count("explored_children_judged", ex.children_judged);
+    rep.count("explored_max_depth", ex.max_depth as u64);
+    rep.count("explored_leaf_value_pairs", ex.leaf_value_pairs);
+    rep.count("explored_children_aborted_by_a_panic(C08_matter)", ex.children_aborted_by_a_panic);
+    if ex.budget_exhausted {
+        rep.notes.push(format!("novelty search: the budget of {} expanded states was used up (the rendering has many-valued fields); depth reached {}", budget, ex.max_depth));
+    }
+    if !ex.sample_deep_state.is_empty() {
+        rep.sample_str(format!("deepest state that showed a new pair of field values: {}", ex.sample_deep_state.chars().take(600).collect::<String>()));
+    }
+    rep.require("children judged in the novelty search", ex.children_judged, 10_000);
+    for (sig, what, path) in ex.violations {
+        let what = format!("after [{}]: {}", path[..path.len() - 1].join(", "), what);
+        let (want, got) = (sig.split("|want=").nth(1).and_then(|x| x.split("|got=").next()).unwrap_or("").to_string(), sig.split("|got=").nth(1).unwrap_or("").to_string());
+        rep.violate(
+            sig,
+            what,
+            J::obj().with("kind", J::s("events")).with("layout", J::s(layout_name(0))).with("initial_mode", J::s("Map")).with("ops", J::strs(path)).with("expected_last", J::s(want)).with("observed_last", J::s(got)),
+        );
+    }
 }
 
 // =================================================================== C04
@@ -279,7 +404,7 @@ pub fn run_c04(rep: &mut Report) {
                             let _ = dec.process_keyevent(KeyEvent::new(*k, *s));
                         }
                         Op::Mode(h) => dec.set_ctrl_handling(*h),
-                        Op::NewLayout => {}
+                        Op::NewLayout | Op::Extra(_) => {}
                     }
                 }
                 let before = parse_debug_mods(&format!("{:?}", dec));
@@ -316,7 +441,8 @@ pub fn run_c04(rep: &mut Report) {
         rep.count("states_in_which_change_layout_was_checked_to_leave_the_record_alone", n);
     }
 
-    // ---------------------------------------------------------------- hostile event histories
+    // ---------------------------------------------------------------- novelty-guided exploration, then hostile event histories
+    run_exploration::<S04>(rep, &uni);
     hostile_histories(rep, &uni);
 
     rep.distinct_nontrivial = changed.len() as u64;
@@ -335,6 +461,10 @@ pub fn run_c04(rep: &mut Report) {
 }
 
 fn random_op(rng: &mut Rng, uni: &[KeyCode], with_layout_change: bool) -> Op {
+    let nx = extra_kb_op_names().len();
+    if nx > 0 && rng.below(25) == 0 {
+        return Op::Extra(rng.below(nx as u64) as usize);
+    }
     let r = rng.below(100);
     if r < 60 {
         // modifier / lock keys, heavy on Down so that keys get stuck
@@ -386,6 +516,7 @@ fn hostile_histories(rep: &mut Report, uni: &[KeyCode]) {
                                     Op::Ev(k, s) => { let _ = kb.process_keyevent(KeyEvent::new(*k, *s)); }
                                     Op::Mode(hc) => kb.set_ctrl_handling(*hc),
                                     Op::NewLayout => {}
+                                    Op::Extra(x) => extra_kb_op!(kb, *x),
                                 }
                                 model_apply(&mut model, &mut mode, op);
                                 let got = bits_from_mods(kb.get_modifiers());
@@ -408,6 +539,7 @@ fn hostile_histories(rep: &mut Report, uni: &[KeyCode]) {
                                 Op::Ev(k, s) => { let _ = dec.process_keyevent(KeyEvent::new(*k, *s)); }
                                 Op::Mode(hc) => dec.set_ctrl_handling(*hc),
                                 Op::NewLayout => dec.change_layout(NullLayout),
+                                Op::Extra(_) => {}
                             }
                             model_apply(&mut model, &mut mode, op);
                             // rendering is slow: sample every 16th op and the last one
@@ -513,6 +645,7 @@ impl Sim {
                 self.mode = *h;
                 None
             }
+            Op::Extra(_) => None,
             Op::NewLayout => {
                 self.instance += 1;
                 self.dec.change_layout(RecLayout { instance: self.instance, log: self.log.clone() });
@@ -794,6 +927,7 @@ pub fn run_c14(rep: &mut Report) {
                         for (i, op) in ops.iter().enumerate() {
                             match op {
                                 HOp::Mode(m) => kb.set_ctrl_handling(MODES[*m]),
+                                HOp::Extra(x) => extra_kb_op!(kb, *x),
                                 HOp::Ev(k, st) => {
                                     // the layout is consulted with the record as it stands when the press arrives (a press of an
                                     // ordinary key changing the record would be C04's matter, not this property's)
@@ -830,7 +964,7 @@ pub fn run_c14(rep: &mut Report) {
                                     mods_str(m),
                                     mode_str(mode)
                                 ),
-                                J::obj().with("kind", J::s("events")).with("layout", J::s(LAYOUT_NAMES[li])).with("ops", J::strs(ops[..=i].iter().map(|o| o.show()))).with("expected_last", J::s(dk_str(&want))).with("observed_last", J::s(odk_str(&got))),
+                                J::obj().with("kind", J::s("events")).with("layout", J::s(LAYOUT_NAMES[li])).with("initial_mode", J::s(if h % 2 == 0 { "Ignore" } else { "Map" })).with("ops", J::strs(ops[..=i].iter().map(|o| o.show()))).with("expected_last", J::s(dk_str(&want))).with("observed_last", J::s(odk_str(&got))),
                             );
                         }
                     }
@@ -869,6 +1003,7 @@ pub fn run_c14(rep: &mut Report) {
                 for (i, op) in ops.iter().enumerate() {
                     match op {
                         HOp::Mode(m) => kb.set_ctrl_handling(MODES[*m]),
+                        HOp::Extra(x) => extra_kb_op!(kb, *x),
                         HOp::Ev(k, st) => {
                             let pre = kb.get_modifiers().clone();
                             let got = kb.process_keyevent(KeyEvent::new(*k, *st));
@@ -966,6 +1101,7 @@ pub fn run_c14(rep: &mut Report) {
         rep.count("shipped_layout_histories_aborted_by_a_panic(C08_matter)", aborted);
     }
 
+    run_exploration::<S14>(rep, &uni);
     rep.distinct_nontrivial = distinct_all.len() as u64;
     rep.exhaustive = Some(states.len() < BFS_CAP);
     rep.rule = "a recording layout answers every consultation with a unique token, so a decoded key identifies the exact map_keycode call that produced it; from every one of the decoder's states (BFS closure) every key × {Down, Up, SingleShot} is applied: releases/one-shots must yield None, modifier/lock presses their own raw key (NumLock under the hidden Ctrl → PauseBreak), any other press the token of exactly one call made with (that key, the decoder's live modifiers, the current mode) on the currently installed layout instance; \
